@@ -8,3 +8,4 @@ for c in "$@"; do
   echo "== $c exit=$rc"; echo "$out" | grep -E "VIOLATION|UNDECIDED|CHECKER|KNOWN|failing obligation|replayed" | cut -c1-260 | head -8
 done
 git -C /repo checkout -- .
+git -C /verif checkout -- evidence 2>/dev/null
